@@ -5,6 +5,19 @@ claim("C09", "edge-cut reachability + value provenance on SSA (custom analyser)"
       "Decides, for every path of readHeader/readFrame/pageMap/NewWALReaderWithOffset/(*DB).sync, that success, page-map updates and the frame counter are reachable only through the branch edges on which each WAL validity fact holds (full reads, magic, header checksum, version, salts, both cumulative checksum words, commit field, trim above commit). A structural necessary condition of the property, decided for all inputs; byte-level equivalence with SQLite is not decided.",
       _TB, "DESIGN.md 3/C09")
 
+claim("C07", "who-may-call + edge-cut reachability + phi provenance on SSA (custom analyser)",
+      "Decides for every path of the five retention functions that a file is put on the deletion list only under its retention predicate, that the newest listed file is never on the list handed to DeleteLTXFiles, that L0 deletion is a prefix, that remote deletion is gated by RetentionEnabled and that no other production code deletes replica files. Necessary conditions of the property for all file sets and ages; global safety across interleaved compaction/ageing is not decided.",
+      _TB, "DESIGN.md 3/C07")
+claim("C08", "edge-cut reachability on SSA CFGs of the planner (custom analyser)",
+      "Plan validity (starts at the chosen snapshot, contiguous, ends at the target, no file created at/after T) is decided by induction from guard facts on the only statements that extend the plan, for all file sets; plus the latest-state gap check and a no-early-exit clause. Completeness of the greedy search is not decided.",
+      _TB, "DESIGN.md 3/C08")
+claim("C15", "edge-cut reachability (strict-before facts) + value provenance of the timestamp round trip",
+      "Decides that every plan selection site requires CreatedAt strictly before T, that listings ask for accurate timestamps when restoring by time, that an empty plan fails, and that the file replica stores/reports the LTX header timestamp as mtime/CreatedAt. Monotonicity in T and 'exactly the last transaction before T' are not decided.",
+      _TB, "DESIGN.md 3/C15")
+claim("C20", "protocol-shape rules: edge-cut reachability + value provenance on s3.Leaser",
+      "Decides the compare-and-swap protocol shape for all paths: conditional header on every PutObject/DeleteObject, acquire gated by absent/expired, token from the same read, generation+1, 412 never success, renew keeps generation. Mutual exclusion then follows from the provider's CAS; interleaving-level linearizability and clock skew are not decided. One recorded finding (F6).",
+      _TB, "DESIGN.md 3/C20")
+
 _pending = "check not built yet in this revision (planned, see DESIGN.md section 3); not claimed until its rules run clean on the unchanged tree"
-for _p in ["C01","C02","C03","C04","C05","C06","C07","C08","C10","C11","C12","C13","C14","C15","C16","C17","C18","C19","C20"]:
+for _p in ["C01","C02","C03","C04","C05","C06","C10","C11","C12","C13","C14","C16","C17","C18","C19"]:
     na(_p, _pending)
